@@ -852,8 +852,20 @@ def run_case(case):
     names = {idx: pre_nodes[idx].get('atomname') for idx in pre_nodes}
     elements = {idx: pre_nodes[idx].get('element') for idx in pre_nodes}
 
+    processor = CanonicalizeModifications()
+    if case['flagging'] != 'repair' and len(pre_nodes) % 2 == 0:
+        # the processor object has handled a molecule before: the same residues, built a second time
+        warm, warm_info = build_molecule(case, blocks, mods, ff)
+        for idx in warm_info['flagged']:
+            warm.nodes[idx]['PTM_atom'] = True
+        with capture_logs():
+            try:
+                processor.run_molecule(warm)
+            except Exception:  # pylint: disable=broad-except
+                pass    # the same input is judged below, on the molecule of the case
+        classes.append('processor-object-used-before')
     with capture_logs() as logs:
-        result = CanonicalizeModifications().run_molecule(mol)
+        result = processor.run_molecule(mol)
     if result is not mol and result is not None:
         mol = result
     n_warn = sum(1 for t in logs.types() if t == 'unknown-input')
